@@ -160,8 +160,8 @@ def gen(tier, rng):
     iv_unreachable = ("upb", "pop", "fr", "bk", "at")   # etl::unreachable() in inplace_vector<T, 0>: plain UB, not observable
     for cap in [0, 1, 3]:
         for h in itertools.product(iv_alpha, repeat=depth):
-            if cap == 0 and any(o.split()[0] in iv_unreachable for o in h):
-                continue
+            if cap == 0 and sum(o.split()[0] in iv_unreachable for o in h) > 1:
+                continue   # every such call is a contract violation in inplace_vector<T, 0>: one per history is enough
             out.append(hist("iv_int", cap, list(h)))
             if cap != 0 and (not quick or rng.random() < 0.3):
                 out.append(hist("iv_trk", cap, list(h)))
@@ -191,9 +191,7 @@ def gen(tier, rng):
             sz = len(sim.v[t])
             room = cap - sz
             x = rng.choice(vals + [52, 3])
-            if fl.startswith("iv") and cap == 0:
-                cand = [f"tpb {t} {x}", f"clr {t}", f"ivc {t}", f"ivm {t}"]
-            elif fl.startswith("iv"):
+            if fl.startswith("iv"):
                 cand = [f"tpb {t} {x}", f"tpb {t} {x}", f"upb {t} {x}", f"pop {t}", f"clr {t}", f"fr {t}", f"bk {t}",
                         f"at {t} {rng.randint(0, max(0, sz - 1))}", f"ivc {t}", f"ivm {t}"]
             elif fl == "stack":
@@ -222,9 +220,9 @@ def gen(tier, rng):
                 break
             if want_invalid and k == steps - 1:
                 # end with a violating call
-                bad = [f"pb {t} {x}" if room == 0 else f"inn {t} 0 {room + 1} {x}", f"at {t} {sz}", f"era {t} {sz}", f"icr {t} {sz + 1} {x}",
+                bad = [f"pb {t} {x}" if room == 0 else f"inn {t} 0 {room + 1} {x}", f"inn {t} 0 -1 {x}", f"inn {t} 0 {-sz - 1} {x}", f"at {t} -1", f"at {t} {sz}", f"era {t} {sz}", f"icr {t} {sz + 1} {x}",
                        f"err {t} {min(sz, 1)} {sz + 1}", f"rsz {t} {cap + 1}"] if not fl.startswith("iv") and fl != "stack" else \
-                      ([f"tpb {t} {x}"] if cap == 0 else [f"upb {t} {x}"] if room == 0 else [f"at {t} {sz}"]) if fl.startswith("iv") else ([f"pb {t} {x}"] if room == 0 else [f"pop {t}"] if sz == 0 else [f"bk {t}"])
+                      ([f"upb {t} {x}"] if room == 0 else [f"at {t} {sz}"]) if fl.startswith("iv") else ([f"pb {t} {x}"] if room == 0 else [f"pop {t}"] if sz == 0 else [f"bk {t}"])
                 chosen = rng.choice(bad)
             ops.append(chosen)
             sim.apply(chosen)
